@@ -6,6 +6,7 @@ from collections.abc import Sequence
 from types import EllipsisType
 from typing import Any
 
+from pydiverse.common import List
 from pydiverse.transform._internal.errors import DataTypeError
 from pydiverse.transform._internal.tree import types
 from pydiverse.transform._internal.tree.types import Dtype, Tyvar
@@ -59,12 +60,13 @@ class SignatureTrie:
 
         def all_matches(self, sig: Sequence[Dtype], tyvars: dict[str, Dtype]) -> list[tuple[list[Dtype], Any]]:
             if len(sig) == 0:
-                return [
-                    (
-                        [],
-                        self.data if not isinstance(self.data, Tyvar) else tyvars[self.data.name],
-                    )
-                ]
+                data = self.data
+                if isinstance(data, Tyvar):
+                    data = tyvars[data.name]
+                elif isinstance(data, List) and isinstance(data.inner, Tyvar):
+                    # (e.g. `list.agg`: T -> List[T])
+                    data = List(types.without_const(tyvars[data.inner.name]))
+                return [([], data)]
 
             matches: list[tuple[list[Dtype], Any]] = []
             tyvar = None
